@@ -46,3 +46,7 @@ check("C14", "exploration", "Hypothesis histories (observer sequences, copies, m
       "Generated histories: message obtained by construction / parse with unknown fields / from_dict, a sequence of read-only operations, copies in generated order, a mutation of the deep / unpickled copy. After every observer the encoding, the public-observer snapshot, is_set and equality must be unchanged; copies must be equal and byte-identical; the mutation must not reach the original.",
       "Samples histories; an observer that raises is counted and tolerated (the property claims purity, not totality).",
       "DESIGN.md 3/C14")
+check("C10", "fault_enumeration", "Hypothesis message streams x exhaustive cut points + round-trip and reference framing oracle",
+      "Generated streams of mixed message types (empty messages, older reader schemas) are written with SIZE_DELIMITED and read back; framing is compared with the spec varint prefix and read with the reference's parse_length_prefixed; then every truncation point of every stream is enumerated and each load must return the written message or raise.",
+      "Streams are sampled, cut points of each sampled stream are exhaustive; older readers are synthesised with the public field API.",
+      "DESIGN.md 3/C10")
